@@ -290,7 +290,8 @@ class JsonSchemaGenerator:
         # name = t.__qualname__
         parser: ClassParser = getattr(t, '__parser__')
         cls_name = parser.name
-        mode = parser.options.mode
+        # the mode this generator was asked for takes precedence over the mode the class declares
+        mode = self.mode or parser.options.mode
         if mode:
             cls_name += '_' + mode
         if self.output and not parser.in_out_identical:
@@ -314,6 +315,9 @@ class JsonSchemaGenerator:
             # handle output
             if parser.output_options:
                 options = parser.output_options
+
+        if self.mode and options.mode != self.mode:
+            options = options & Options(mode=self.mode)
 
         for name, field in parser.fields.items():
             value = self.generate_for_field(field, options=options)
